@@ -142,6 +142,7 @@ def _decode(b: Box, data: bytes, body: int, end: int, iv_size: int | None) -> No
     if t == b'mfhd':
         f['version'], f['flags'] = _fullbox(data, body)
         f['sequence_number'] = struct.unpack_from('>I', data, body + 4)[0]
+        f['consumed'] = body + 8 - b.pos
     elif t == b'tfhd':
         v, fl = _fullbox(data, body)
         f['version'], f['flags'] = v, fl
@@ -374,7 +375,13 @@ class Parsed:
             if b.type in CONTAINERS:
                 if b.pos + b.hdr + sum(c.size for c in b.children) != b.end:
                     return False
-        return True
+        return not self.syntax_overruns()
+
+    def syntax_overruns(self) -> list[str]:
+        """boxes whose syntax (as selected by their version and flags) needs more bytes than the box has: a reader that follows
+        the syntax runs past the end of the box"""
+        return [f'{b.name}@{b.pos}: version/flags {b.f.get("version")}/{b.f.get("flags")} need {b.f["consumed"]} bytes, the box has {b.size}'
+                for b in self.boxes() if isinstance(b.f.get('consumed'), int) and b.f['consumed'] > b.size]
 
 
 def top_level_layout(data: bytes) -> list[tuple[str, int, int]]:
